@@ -280,6 +280,14 @@ impl<L: Language, N: Analysis<L>> EGraph<L, N> {
                 #[allow(unused)]
                 let (a, b, proof) = self.pc_congruence(&pc1, &pc2);
 
+                // A symmetry of a child may exchange a redundant slot of this e-node with a
+                // non-redundant one. Then `a` and `b` mention different slots: this is not a
+                // symmetry of the class, it shows that the exchanged slot is redundant as well.
+                if a.slots() != b.slots() {
+                    self.union_internal(&a, &b, proof);
+                    return;
+                }
+
                 // `proof` shows a = b, i.e. id[identity] = id[b.m * a.m^-1].
                 let perm = b.m.compose(&a.m.inverse());
 
